@@ -45,6 +45,8 @@ func runC17(c *Ctx) {
 	// a group that is removed from only one of the two containers is invisible to expiry / FlushAll
 	// (list) or to later flushes (map): it lingers. Same pairing / cleanup rules as C11.
 	c.gatedContainerRules("C17")
+	// "oldest first": nothing reorders the list
+	c.ruleListOps("C17.listops")
 }
 
 var _ = ssa.Instruction(nil)
